@@ -51,7 +51,7 @@ def AdvInv (st : RState) : Adv → Prop
   | .ok _ st' => st'.closeSent = false ∧ st'.result = st.result
   | .err (.proto _) st' => LastClose 1002 st'
   | .err .readLimit st' =>
-      LastClose 1009 st' ∨ Dev.len64Msb ∈ st'.devs ∨ Dev.lengthOverflow ∈ st'.devs
+      LastClose 1009 st' ∨ Dev.len64Msb ∈ st'.devs
   | .err (.panic _) _ => False
   | .err .fuel _ => False
   | .err .unexpectedData _ => False
@@ -62,7 +62,10 @@ theorem dataFrame_inv (cfg : Cfg) (ft : Nat) (st0 st : RState) (h : st.closeSent
   unfold dataFrame
   simp only []
   split
-  · simp [AdvInv]
+  · simp only [AdvInv]
+    left
+    rw [writeControl_close _ _ (by simpa using h) (by simp [formatClose_1009])]
+    exact ⟨_, _, rfl, by simp [formatClose_1009, toBE]⟩
   · split
     · simp only [AdvInv]
       left
@@ -90,7 +93,10 @@ theorem processControl_inv (ft : Nat) (payload : Bytes) (st0 st : RState) (h : s
       exact ⟨h, hr⟩
     · match payload with
       | [] => simp [AdvInv]
-      | [_] => simp [AdvInv]
+      | [_] =>
+        obtain ⟨st', he, hl⟩ := handleProtocolError_spec st "invalid close payload length" h
+        simp only []
+        rw [he]; exact hl
       | a :: b :: text =>
         simp only []
         by_cases hc : (!goValidCloseCode (a.toNat * 256 + b.toNat)) = true
@@ -116,7 +122,7 @@ theorem processControl_ok_input {ft ft' : Nat} {payload : Bytes} {st st' : RStat
       rw [← h.2, (writeControl_pong _ payload).2.2.2.2]
     · match payload with
       | [] => simp at h
-      | [_] => simp at h
+      | [_] => simp only [] at h; unfold handleProtocolError at h; cases h
       | a :: b :: text =>
         simp only [] at h
         by_cases hc : (!goValidCloseCode (a.toNat * 256 + b.toNat)) = true
@@ -242,12 +248,7 @@ theorem advanceFrame_inv (cfg : Cfg) (st : RState) (h : st.closeSent = false) :
             { st2 with readRemaining := (parseHdr p0 p1).len7,
                        readDecompress := (parseHdr p0 p1).rsv1 && cfg.deflate,
                        readFinal := if isDataOp (parseHdr p0 p1).opcode || (parseHdr p0 p1).opcode == 0
-                                    then (parseHdr p0 p1).fin else st2.readFinal,
-                       devs := if (parseHdr p0 p1).rsv1 && cfg.deflate then
-                                 (if isControlOp (parseHdr p0 p1).opcode then st2.devs ++ [Dev.rsv1Control]
-                                  else if (parseHdr p0 p1).opcode == 0 then st2.devs ++ [Dev.rsv1Continuation]
-                                  else st2.devs)
-                               else st2.devs }
+                                    then (parseHdr p0 p1).fin else st2.readFinal }
             (", ".intercalate (headerErrs cfg st2.readFinal (parseHdr p0 p1)))
             (by rw [hst]; simp [h1.1])
           rw [he]; exact hl
@@ -373,7 +374,7 @@ theorem advanceFrame_ok_input {cfg : Cfg} {ft : Nat} {st st' : RState}
 def RunGood (r : RState) : Prop :=
   (∀ msg, r.result = some (.proto msg) → LastClose 1002 r) ∧
   (r.result = some .readLimit →
-      LastClose 1009 r ∨ Dev.len64Msb ∈ r.devs ∨ Dev.lengthOverflow ∈ r.devs) ∧
+      LastClose 1009 r ∨ Dev.len64Msb ∈ r.devs) ∧
   (∀ w, r.result ≠ some (.panic w)) ∧ r.result ≠ none
 
 theorem runGood_finish_of_adv {st0 : RState} {e : RErr} {st' : RState}
